@@ -23,7 +23,7 @@ ASSUMPTIONS = ["the Born and dielectric tensors used by the oracle are read back
                "Gonze-Lee: equality at commensurate q is asked at a shortest first-zone representative to 2e-5 (the non-periodicity of the truncated reciprocal sum with the default cutoff)"]
 BUDGET = {"quick": 900, "thorough": 3400}
 
-XT = ["NaCl-prim-2", "CsCl-2", "zincblende-prim-2", "wurtzite-4", "rhomb-prim-2", "ortho-P-2", "tri-P1-3", "mono-Pm-2"]
+XT = ["perovskite-5", "NaCl-prim-2", "CsCl-2", "zincblende-prim-2", "wurtzite-4", "rhomb-prim-2", "ortho-P-2", "tri-P1-3", "mono-Pm-2"]
 DIRS = [(1, 0, 0), (0, 1, 0), (0, 0, 1), (1, 1, 0), (1, 0, 1), (0, 1, 1), (1, -1, 0), (1, 0, -1), (0, 1, -1), (1, 1, 1), (1, 1, -1), (1, -1, 1), (-1, 1, 1),
         (1, 2, 3), (0.3, -0.7, 0.2), (-2, 0.1, 0.9)]
 LENGTHS = [1e-3, 1.0, 50.0]
@@ -150,6 +150,33 @@ def run_case(case, seed, st):
 
         return fail("raised", "%s: %s" % (type(e).__name__, traceback.format_exc()[-300:]))
     nat = len(m)
+    # (0) the tensors phonopy uses are the input averaged over the space group of the primitive cell: for every operation
+    # {W|t} and atom i, the atom j with W x_j + t = x_i contributes R Z_j R^T (R = Cartesian form of W); same for eps
+    if case["born"] == "random" and case["method"] == "wang" and case["layout"] == "full" and case["factor"] == 14.399652:
+        ops_ = ph.primitive_symmetry.symmetry_operations
+        xp = ph.primitive.scaled_positions
+        Lc = np.asarray(ph.primitive.cell).T  # columns = lattice vectors
+        Zin, Ein = np.array(nac["born"], float), np.array(nac["dielectric"], float)
+        Zs, Es = np.zeros_like(Zin), np.zeros((3, 3))
+        okmap = True
+        for W, t in zip(ops_["rotations"], ops_["translations"]):
+            Rc = Lc @ np.asarray(W, float) @ np.linalg.inv(Lc)
+            Es += Rc @ Ein @ Rc.T
+            for i in range(nat):
+                d_ = (xp @ np.asarray(W, float).T + t) - xp[i]
+                j = np.where(np.abs(d_ - np.rint(d_)).max(axis=1) < 1e-5)[0]
+                if len(j) != 1:
+                    okmap = False
+                    break
+                Zs[i] += Rc @ Zin[j[0]] @ Rc.T
+        nops = len(ops_["rotations"])
+        if okmap:
+            Zs /= nops
+            Es /= nops
+            Zs_n = Zs - Zs.sum(axis=0) / nat  # acoustic sum rule is imposed after the average
+            e_sym = min(np.abs(Z - Zs).max(), np.abs(Z - Zs_n).max())
+            if e_sym > 1e-8 or np.abs(eps - Es).max() > 1e-8:
+                return fail("born-symmetrisation", "the Born tensors in use differ from the space-group average of the input by %.3g (dielectric: %.3g); %d operations" % (e_sym, np.abs(eps - Es).max(), nops), float(e_sym), True)
     # (c) zero Born charges: no-op everywhere
     if case["born"] == "zero":
         e = np.abs(D1 - D0).max() / scale
